@@ -234,6 +234,23 @@ pub fn poly_case(cx: &mut Ctx, n: u64, case: &Value) {
                 }
             }
         }
+        {
+            // a flat polygon with DECIMAL coordinates on the main diagonal (x = y: exactly collinear whatever the rounding), built from
+            // the x and y values of this shell re-labelled by v -> 0.1 v + 0.3: zero area, so its centroid is that of its outline
+            for pick_y in [false, true] {
+                let mut d: Vec<Coord<f64>> = ext.0.iter().map(|c| { let v = (if pick_y { c.y } else { c.x }) * 0.1 + 0.3; Coord { x: v, y: v } }).collect();
+                d.dedup();
+                if d.len() >= 3 && d.first() == d.last() && d.len() <= 40 {
+                    let (ring, poly) = (LineString::new(d.clone()), Polygon::new(LineString::new(d.clone()), vec![]));
+                    let (a, b) = (guard(|| poly.centroid()), guard(|| ring.centroid()));
+                    let ok = matches!((&a, &b), (Ok(Some(x)), Ok(Some(y))) if (x.x() - y.x()).abs() <= 1e-12 && (x.y() - y.y()).abs() <= 1e-12);
+                    if ok { cx.ok("flat_polygon_falls_back_to_outline"); } else {
+                        cx.bad("C06", "flat_polygon_falls_back_to_outline", case, json!({"what": "flat polygon on the main diagonal with decimal coordinates: Polygon::centroid vs centroid of its exterior",
+                            "ring": d.iter().map(|c| c.x).collect::<Vec<_>>(), "polygon": format!("{a:?}"), "outline": format!("{b:?}")}));
+                    }
+                }
+            }
+        }
         let p0 = Polygon::new(ext.clone(), holes.clone());
         {
             // f32 scalar type (lattice coordinates are exact; the accumulated sums are not: tolerance 1e-4 of the extent)
